@@ -95,6 +95,52 @@ CHAR_OPTS = [
 ]
 
 
+LABEL_OPTS_NEWICK = [
+    {},
+    {"__ns": "plain"},
+    {"__ns": "pre"},
+    {"__ns": "pre2"},
+    {"case_sensitive_taxon_labels": True, "__ns": "cs"},
+    {"case_sensitive_taxon_labels": True, "__ns": "cs-pre"},
+]
+LABEL_OPTS_OTHER = [{}, {"__ns": "pre"}, {"case_sensitive_taxon_labels": True, "__ns": "cs"}]
+PRE_NAMESPACES = {"pre": ["p", "q", "r"], "pre2": ["p", "3", "q"], "cs-pre": ["p", "q", "r"]}
+
+
+def cases_labels(tier):
+    """label vocabulary: integers colliding with taxon positions, beyond the namespace, zero-padded,
+    quoted, equal up to case; in the first and in a later statement; fresh, plain, pre-populated and
+    case-sensitive namespaces (the namespace of the first read is re-used by the shared-namespace routes)"""
+    q = tier == "quick"
+    out = []
+    firsts = D.vocab_first_variants((0, 3) if q else (0, 1, 2, 3))
+    laters = D.vocab_later_variants(True)
+    for f in firsts:
+        for l in laters:
+            for o in LABEL_OPTS_NEWICK:
+                out.append({"kind": "trees", "schema": "newick", "opts": o, "p": dict(vocab=True, first=f, later=l)})
+            if not q and f == firsts[0]:
+                for third in (["9", "a", "b", "01"], ["3", "2", "1", "x"]):
+                    for o in LABEL_OPTS_NEWICK:
+                        out.append({"kind": "trees", "schema": "newick", "opts": o, "p": dict(vocab=True, first=f, later=l, third=third)})
+    firsts2 = D.vocab_first_variants((3,) if q else (0, 3))
+    laters2 = D.vocab_later_variants(not q)
+    for f in firsts2:
+        for l in laters2:
+            for taxa in ("none", "one"):
+                for layout in ([2], [1, 1]):
+                    for o in (LABEL_OPTS_OTHER[:2] if q else LABEL_OPTS_OTHER):
+                        out.append({"kind": "trees", "schema": "nexus", "opts": o, "p": dict(vocab=True, first=f, later=l, taxa=taxa, layout=layout)})
+            labs = [D._unq(t) for t in f + l]
+            case_clash = len(set(x.lower() for x in labs)) != len(set(labs))
+            for layout in ([2], [1, 1]) if not q else ([2],):
+                for o in LABEL_OPTS_OTHER:
+                    if case_clash and not o.get("case_sensitive_taxon_labels"):
+                        continue      # two distinct OTUs whose labels are equal up to case: outside the domain of a case-insensitive read
+                    out.append({"kind": "trees", "schema": "nexml", "opts": o, "p": dict(vocab=True, first=f, later=l, layout=layout)})
+    return out
+
+
 def bounds(tier):
     q = tier == "quick"
     return {
@@ -114,6 +160,10 @@ def bounds(tier):
         "char_docs": "NEXUS: kind{dna,protein,standard,continuous} x block{data,characters} x interleave x matchchar x multistate x "
                      "one/two matrices x trees{none,before,after} x sets x line end; FASTA, PHYLIP (sequential/interleaved), NeXML DnaSeqs",
         "offsets": "all (collection, tree) pairs, plus -1 for TreeList offsets",
+        "label_vocabulary": {"first_statement": D.VOCAB_FIRST, "later_statement": D.VOCAB_LATER,
+                             "positions_first": [0, 3] if q else [0, 1, 2, 3],
+                             "namespaces": ["own", "plain", "pre-populated p,q,r", "pre-populated p,3,q", "case-sensitive", "case-sensitive pre-populated"],
+                             "schemas": "newick (2 statements; thorough also 3), nexus without TRANSLATE (TAXA none/one, layouts (2),(1,1)), nexml"},
         "layers": list(active_layers()),
     }
 
@@ -283,6 +333,7 @@ LAYERS = {
     "structure": (cases_structure, 60),
     "nexml": (cases_nexml, 40),
     "chars": (cases_chars, 120),
+    "labels": (cases_labels, 60),
 }
 _case_cache = {}
 
@@ -298,7 +349,7 @@ def active_layers():
     """development aid: VERIF_C13_LAYERS=a,b restricts a run to some layers (recorded in the
     evidence through bounds()); registered commands never set it"""
     v = os.environ.get("VERIF_C13_LAYERS")
-    names = ("nexus-core", "nexus-deco", "newick", "structure", "nexml", "chars")
+    names = ("nexus-core", "nexus-deco", "newick", "structure", "nexml", "chars", "labels")
     if v:
         return tuple(x for x in names if x in v.split(","))
     return names
@@ -325,6 +376,14 @@ def render(case):
     if p.get("shape") is not None:
         p["shape"] = _tshape(p["shape"])
     schema = case["schema"]
+    if case["kind"] == "trees" and p.get("vocab"):
+        if schema == "newick":
+            t, b = D.vocab_newick_doc(p["first"], p["later"], p.get("third"))
+        elif schema == "nexus":
+            t, b = D.vocab_nexus_doc(p["first"], p["later"], p["taxa"], tuple(p["layout"]))
+        else:
+            t, b = D.vocab_nexml_doc(p["first"], p["later"], tuple(p["layout"]))
+        return t, schema, b
     if case["kind"] == "trees":
         if schema == "newick":
             t, b = D.newick_doc(p)
@@ -510,6 +569,11 @@ class Env(object):
         return d
 
     def newns(self):
+        if self.nsmode in PRE_NAMESPACES:
+            ns = dendropy.TaxonNamespace(is_case_sensitive=self.nsmode.startswith("cs"))
+            for lab in PRE_NAMESPACES[self.nsmode]:
+                ns.add_taxon(dendropy.Taxon(label=lab))
+            return ns
         if self.nsmode == "cs":
             return dendropy.TaxonNamespace(is_case_sensitive=True)
         if self.nsmode == "plain":
@@ -850,6 +914,9 @@ def _ds_read(ds, env, kind):
 
 
 def ta_data(ta):
+    """(is_rooted_trees, per tree (splits as label sets with lengths, leafset as label set, weight), set of namespace labels):
+    every bitmask is decoded against the array's own namespace, so a leaf attached to another
+    taxon shows up as a different label set"""
     ns = ta.taxon_namespace
     labs = [x._label for x in ns._taxa]
 
@@ -859,7 +926,7 @@ def ta_data(ta):
     for splits, lens, leafset, w in zip(ta._tree_split_bitmasks, ta._tree_edge_lengths, ta._tree_leafset_bitmasks, ta._tree_weights):
         pairs = sorted(((lset(s), L) for s, L in zip(splits, lens)), key=repr)
         out.append((tuple(pairs), lset(leafset), w))
-    return (ta._is_rooted_trees, tuple(out))
+    return (ta._is_rooted_trees, tuple(out), tuple(sorted(set(str(x) for x in labs))))
 
 
 class Ctx2(object):
@@ -945,6 +1012,8 @@ def run_tree_array(env, R, ctx, blocks, sl):
             if not what:
                 R.reported.add(("TreeArray", field))
             R.viol("TreeArray", what + field, msg, route)
+        if a[2] != b[2]:
+            tv("namespace-labels", "namespace of the array holds labels %s, the namespace of the reference trees %s" % (list(a[2]), list(b[2])))
         if a[0] != b[0]:
             tv("is_rooted_trees", "is_rooted_trees %r, add_trees of the reference trees gives %r" % (a[0], b[0]))
         if len(a[1]) != len(b[1]):
@@ -1102,7 +1171,9 @@ def compact(case):
     text, schema, extra = render(case)
     c = {"kind": case["kind"], "schema": schema, "opts": case["opts"], "text": text}
     p = case.get("p") or {}
-    if case["kind"] == "trees" and schema == "nexus":
+    if case["kind"] == "trees" and p.get("vocab"):
+        c["feat"] = "label-vocabulary" + (",taxa-blocks=%s" % {"none": 0, "one": 1}[p["taxa"]] if schema == "nexus" else "")
+    elif case["kind"] == "trees" and schema == "nexus":
         c["feat"] = "taxa-blocks=%s,translate=%s" % ({"none": 0, "one": 1}.get(p.get("taxa"), 2), p.get("translate"))
     elif case["kind"] == "trees" and schema == "nexml":
         c["feat"] = "otus-blocks=%s" % (1 if p.get("otus") == "one" else 2)
